@@ -8,6 +8,10 @@ t = open("/verif/tools/seeder_prompts/seeder-%s.txt" % pid).read()
 t = t.replace("call them m1 and m2", "call them %s and %s" % (a, b)).replace("zz_seed_m1_test.go", "zz_seed_%s_test.go" % a)
 t = t.replace("/m1/ (resp. m2/)", "/%s/ (resp. %s/)" % (a, b)).replace("After saving m1", "After saving %s" % a).replace("before starting m2", "before starting %s" % b)
 t = t.replace("summary of m1 and m2", "summary of %s and %s" % (a, b))
+# `git stash` is shared by all worktrees of one repository: seeders working side by side popped each other's stashes once
+t = t.replace("check with `git stash` if in doubt", "check on the unchanged files (see the procedure below; NEVER use `git stash`: the stash is shared with other engineers' worktrees) if in doubt")
+t = t.replace("(`git stash push -- <changed non-demo files>` … must pass; `git stash pop`)", "(`git diff -- <changed non-demo files> > /tmp/seed-%s-out/cur.diff && git checkout -- <changed non-demo files>` … must pass; `git apply /tmp/seed-%s-out/cur.diff`; NEVER `git stash`)" % (pid, pid))
+assert "git stash push" not in t
 prev = []
 for m in sorted(glob.glob("/verif/seeded/%s-m*/meta.json" % pid)):
     j = json.load(open(m)); prev.append("- " + j["summary"][:400].replace("\n", " "))
